@@ -353,7 +353,8 @@ def r7(rr, repo):
     for r in rets:
         st = r.value.elts[1]
         ok = isinstance(st, ast.Call) and U(st.func).endswith('ZMQStateSend') and st.args
-        prev = [s for s, t in q.stores_to_attr(za.R_recv, 'prev_id') if isinstance(s, ast.Assign) and not q.inside(s, za.R_once)]
+        _, rlst, _ = stmt_list_containing(r)
+        prev = [s for s, t in q.stores_to_attr(za.R_recv, 'prev_id') if isinstance(s, ast.Assign) and s in rlst]
         same = ok and prev and all(U(s.value) == U(st.args[0]) for s in prev)
         rr.ob('the state returned with a set carries the id recorded as last returned (self.prev_id)', bool(same), za.mod, r, key='hop1')
     # hop 2
@@ -423,3 +424,35 @@ def r8(rr, repo):
         v = e.value
         ok = isinstance(v.value, ast.Constant) and v.value.value is None and U(v.generators[0].iter).startswith('topics')
         rr.ob('the template has one key per subscribed source topic, all missing (None)', ok, za.mod, e.node, witness=U(v)[:100], key='template')
+
+
+@rule('C01.R9', 'the expected id and the partial sets it belongs to leave recv() together: an exit that keeps the per-source sets for the next call (timeout) also records the id adopted during the call, '
+                'so the next call cannot accept an older id into a set of the newer one')
+def r9(rr, repo):
+    za = anchors(repo)
+    from .c04 import recv_loop_paths
+    loop, paths = recv_loop_paths(za)
+    rr.paths += len(paths)
+    # can the expected id be raised inside a call at all?  (it is, by the synchronized branch of recv_once)
+    sync, slst, _, _ = sync_region(za)
+    shared = sync.args[0].id
+    raised = [n for n in ast.walk(za.R_once) if isinstance(n, ast.Assign) and any(isinstance(t, ast.Name) and t.id == shared for t in n.targets)]
+    rr.floor('sites that raise the expected id inside a call', len(raised), 1, za.mod, za.R_once)
+    n = 0
+    for p in paths:
+        o = p.outcome
+        if o is None or o[0] != 'return':
+            continue
+        gives_up = o[1] is None or (isinstance(o[1], ast.Constant) and o[1].value is None)
+        if not gives_up:
+            continue
+        n += 1
+        rearm = [e for e in p.events if e.kind == 'call' and e.term == 'self.new_recv']
+        st = [e for e in p.events if e.kind == 'store' and e.term == 'self.prev_id']
+        keeps_id = any(f'{shared} - 1' in e.args[0] for e in st)
+        rr.ob('giving up (timeout) either discards the per-source sets or remembers the adopted expected id (prev_id := expected - 1, monotone)', bool(rearm) or keeps_id, za.mod, loop,
+              witness=f'{p.pc_text()[-200:]} => return None; stores: {[repr(e)[:70] for e in st]}', key='timeout-keeps-id')
+        if keeps_id:
+            mono = any(e.args[0].startswith('max(self.prev_id, ') or e.args[0].startswith(f'max({shared} - 1, self.prev_id') for e in st)
+            rr.ob('the remembered id can only grow', mono, za.mod, st[-1].node, witness=st[-1].args[0], key='timeout-monotone')
+    rr.floor('give-up exits of the wait loop', n, 1, za.mod, loop)
